@@ -39,7 +39,17 @@ BOUNDS = (
     "name and with overwrite of an inherited name) applied to parent or child for up to 7 index forms (quick: 4, on the first 4 SourceCatalog configurations); the "
     "other catalog's extra_properties list, extra values, to_table (default columns + extras) and "
     "meta must be unchanged, both when it was evaluated before the operation and when it was not; "
-    "the acting catalog's extra_properties list must change as documented."
+    "the acting catalog's extra_properties list must change as documented.  Parameterised calls: "
+    "with the parent's Kron / fluxfrac / circular results evaluated before indexing (thorough: also "
+    "everything / nothing evaluated), children taken as basic slices (numpy views: [0:3], [::-1], "
+    "[1:], [::2]), int, list and boolean mask; on parent or child run kron_photometry((2.5, 8.0)) "
+    "(minimum Kron radius above the measured radii), make_kron_apertures((3.0, 6.0)), "
+    "circular_photometry(4.5) + fluxfrac_radius(0.9), and a named composite incl. "
+    "kron_photometry((1.0, 0.1)) and ((4.0, 9.0, 2.0)); then EVERYTHING the other catalog "
+    "reports - kron_photometry with the default and other parameters, make_kron_apertures, "
+    "fluxfrac_radius, circular_photometry, every property, extra_properties, a fresh to_table(), "
+    "meta - must equal exactly what the same catalog of an untouched identically built pair "
+    "reports.  (ApertureStats has no parameterised measurement method.)"
 )
 RULE = (
     "Configurations are a fixed list (quick: 7 SourceCatalog + 6 ApertureStats; thorough: plus "
@@ -832,6 +842,152 @@ def check_independence(ctx, cfg, rec, rng):
                             f'{det["actor_list"]}, documented effect gives {det["expected_list"]}', case)
 
 
+# ------------------------------------------------- independence under parameterised method calls
+KRON_PROPS = ('kron_radius', 'kron_flux', 'kron_fluxerr', 'kron_aperture')
+
+
+def _param_ops():
+    """Calls with NON-default arguments (large minimum Kron radius, other scale, minimum circular
+    radius, other aperture radius / flux fraction); none of them may change another catalog."""
+    return {
+        'kron-large-min-radius': lambda c: c.kron_photometry((2.5, 8.0)),
+        'kron-apertures-large-min': lambda c: c.make_kron_apertures((3.0, 6.0)),
+        'circ-fluxfrac-nondefault': lambda c: (c.circular_photometry(4.5), c.fluxfrac_radius(0.9),
+                                               c.make_circular_apertures(1.5)),
+        'composite-named': lambda c: (c.kron_photometry((2.5, 8.0), name='kbig'),
+                                      c.kron_photometry((1.0, 0.1), name='ksmall'),
+                                      c.make_kron_apertures((3.0, 6.0)),
+                                      c.circular_photometry(4.5, name='c45'),
+                                      c.fluxfrac_radius(0.9, name='r90'),
+                                      c.kron_photometry((4.0, 9.0, 2.0))),
+    }
+
+
+def _try(fn):
+    try:
+        return fn()
+    except Exception as exc:  # noqa: BLE001
+        return ('EXC', repr(exc)[:200])
+
+
+def observe_everything(c):
+    """Ordered [(item, value)] of everything the catalog reports, including values that are
+    (re)computed now by the parameterised methods and a fresh to_table."""
+    out = []
+    kp = tuple(c.kron_params)
+    out.append(('kron_photometry(default kron_params)', _try(lambda: c.kron_photometry(kp))))
+    out.append(('make_kron_apertures()', _try(lambda: c.make_kron_apertures())))
+    out.append(('kron_photometry((2.0, 1.0))', _try(lambda: c.kron_photometry((2.0, 1.0)))))
+    out.append(('make_kron_apertures((2.0, 1.0))', _try(lambda: c.make_kron_apertures((2.0, 1.0)))))
+    out.append(('fluxfrac_radius(0.5)', _try(lambda: c.fluxfrac_radius(0.5))))
+    out.append(('fluxfrac_radius(0.3)', _try(lambda: c.fluxfrac_radius(0.3))))
+    out.append(('circular_photometry(2.0)', _try(lambda: c.circular_photometry(2.0))))
+    out.append(('make_circular_apertures(2.0)', _try(lambda: c.make_circular_apertures(2.0))))
+    names = sorted(set(c.properties) | set(c.extra_properties))
+    vals = read_all(c, names)
+    for nm in KRON_PROPS:
+        out.append((f'prop:{nm}', vals[nm]))
+    for nm in names:
+        if nm not in KRON_PROPS:
+            out.append((f'prop:{nm}', vals[nm]))
+    out.append(('extra_properties', list(c.extra_properties)))
+    tbl = _try(lambda: c.to_table())
+    if _is_exc(tbl):
+        out.append(('to_table()', tbl))
+    else:
+        out.append(('to_table().colnames', list(tbl.colnames)))
+        for col in tbl.colnames:
+            column = tbl[col]
+            out.append((f'to_table():{col}', column if hasattr(column, 'frame') else
+                        (column.value if getattr(column, 'unit', None) is not None
+                         and hasattr(column, 'value') else np.asarray(column))))
+    out.append(('meta', repr(sorted((k, v) for k, v in c.meta.items() if k != 'date'))))
+    return out
+
+
+def _pair(cfg, form, pre):
+    parent = make(cfg)
+    if pre == 'kron':
+        read_all(parent, list(KRON_PROPS))
+        parent.fluxfrac_radius(0.5)
+        parent.circular_photometry(2.0)
+    elif pre == 'all':
+        read_all(parent, sorted(set(parent.properties) | set(parent.extra_properties)))
+    child = apply_index(parent, cfg, form)
+    return parent, child
+
+
+def run_param_independence(cfg, form, pre, opname, actor, ref_cache=None):
+    """Differences between what the non-acting catalog reports after `opname` was run on the other
+    one, and what the same catalog of an untouched, identically built pair reports."""
+    rkey = (repr(form), pre, actor)
+    if ref_cache is not None and rkey in ref_cache:
+        ref = ref_cache[rkey]
+    else:
+        tp, tc = _pair(cfg, form, pre)
+        ref = observe_everything(tc if actor == 'parent' else tp)
+        if ref_cache is not None:
+            ref_cache[rkey] = ref
+    parent, child = _pair(cfg, form, pre)
+    act, other = (parent, child) if actor == 'parent' else (child, parent)
+    _param_ops()[opname](act)
+    got = observe_everything(other)
+    bad = []
+    if [k for k, _ in got] != [k for k, _ in ref]:
+        bad.append(('items', [k for k, _ in got], [k for k, _ in ref]))
+    else:
+        for (k, g), (_, r) in zip(got, ref):
+            if _is_exc(g) != _is_exc(r) or (not _is_exc(g) and not same(g, r)):
+                bad.append((k, g, r))
+    return bad
+
+
+def param_forms(n):
+    forms = [{'kind': 'slice', 'v': [0, min(3, n), None]}, {'kind': 'slice', 'v': [None, None, -1]},
+             {'kind': 'int', 'v': 0}]
+    if n > 1:
+        forms += [{'kind': 'list', 'v': [n - 1, 0]}, {'kind': 'slice', 'v': [1, None, None]},
+                  {'kind': 'boolarray', 'v': [int(i % 2 == 0) for i in range(n)]},
+                  {'kind': 'slice', 'v': [None, None, 2]}, {'kind': 'int', 'v': -1}]
+    return forms
+
+
+def check_param_independence(ctx, cfg, rec):
+    n = cfg['n']
+    cfgid = hashlib.md5(repr(sorted(cfg.items())).encode()).hexdigest()[:10]
+    forms = param_forms(n)
+    pres = ('kron', 'all', 'none') if ctx.thorough else ('kron',)
+    ops = list(_param_ops())
+    if not ctx.thorough:
+        forms = forms[:4]
+        ops = ['kron-large-min-radius', 'composite-named']
+    ref_cache = {}
+    for pre in pres:
+        for form in forms:
+            for opname in ops:
+                for actor in ('parent', 'child'):
+                    other = 'child' if actor == 'parent' else 'parent'
+                    ctx.case((cfgid, 'param', repr(form), pre, opname, actor),
+                             contract='SC: non-default method call on one catalog leaves everything '
+                                      'the other reports unchanged',
+                             sample={'n': n, 'form': form, 'pre': pre, 'op': opname, 'actor': actor})
+                    case = {'kind': 'param-indep', 'cfg': cfg, 'form': form, 'pre': pre,
+                            'op': opname, 'actor': actor}
+                    try:
+                        bad = run_param_independence(cfg, form, pre, opname, actor, ref_cache)
+                    except Exception as exc:  # noqa: BLE001
+                        rec(f'SC/independence/nondefault-call/{opname}/exception',
+                            f'{opname} on the {actor} of cat[{form}] raised {exc!r} (n={n})', case)
+                        continue
+                    if bad:
+                        item = bad[0][0].split('(')[0].split(':')[0]
+                        rec(f'SC/independence/nondefault-call-changes-other/{item}',
+                            f'{opname} on the {actor} of cat[{form}] (parent pre-evaluated: {pre}) '
+                            f'changed what the {other} reports afterwards: '
+                            f'{[b[0] for b in bad][:8]}; first: {bad[0][0]} = {short(bad[0][1])}, '
+                            f'untouched twin: {short(bad[0][2])} (n={n})', case)
+
+
 # --------------------------------------------------------------------------- configurations
 def configs(ctx):
     sc = [
@@ -916,10 +1072,13 @@ def run(ctx):
             plan.append(('commute', ap[i]))
         if i < len(sc) and sc[i].get('extras') and (ctx.thorough or i < 4):
             plan.append(('indep', sc[i]))
+        if i < len(sc) and (ctx.thorough or i in (0, 3)):
+            plan.append(('pindep', sc[i]))
     for cfg in extra:
         plan.append(('commute', cfg))
         if cfg['cls'] == 'SC':
             plan.append(('indep', cfg))
+            plan.append(('pindep', cfg))
     for what, cfg in plan:
         if ctx.out_of_time():
             ctx.note(f'time budget reached; configurations not run: '
@@ -928,8 +1087,11 @@ def run(ctx):
         if what == 'commute':
             nf, nn = check_commutation(ctx, cfg, rec, rng, nmixed)
             done.append((what, cfg['cls'], cfg['n'], nf, nn))
-        else:
+        elif what == 'indep':
             check_independence(ctx, cfg, rec, rng)
+            done.append((what, cfg['cls'], cfg['n']))
+        else:
+            check_param_independence(ctx, cfg, rec)
             done.append((what, cfg['cls'], cfg['n']))
     # observation only (not part of the statement's operations): ApertureStats shares `meta`
     try:
@@ -949,6 +1111,12 @@ def run(ctx):
 def replay(case):
     try:
         cfg = case['cfg']
+        if case.get('kind') == 'param-indep':
+            bad = run_param_independence(cfg, case['form'], case['pre'], case['op'], case['actor'])
+            if bad:
+                return 'confirmed', f'the other catalog reports differently: {[b[0] for b in bad][:8]}', \
+                    {'first': bad[0][0], 'got': short(bad[0][1]), 'untouched_twin': short(bad[0][2])}
+            return 'spurious', 'the other catalog reports exactly what an untouched twin reports', None
         if case.get('kind') == 'indep':
             bad, list_ok, det = run_independence(cfg, case['form'], case['op'], case['actor'],
                                                  case['pre_eval'])
